@@ -612,6 +612,11 @@ func (c *compiler) buildLA(useTransitions, stats bool) {
 			for is := len(states) - 1; is >= 0; is, i = is-1, i-1 {
 				curr, sym := states[is], c.right[i]
 				if sym < c.grammar.Terminals {
+					if useTransitions {
+						// A terminal transition that ends the rule is followed by whatever follows
+						// the rule (needed for chaining lookahead tokens in LALR(k)).
+						g[gt] = append(g[gt], c.selectGoto(curr, Sym(sym)))
+					}
 					break
 				}
 				// Inner rule's goto inherits outer follow set.
